@@ -109,6 +109,7 @@ type gen struct {
 	zeroSlots map[string][]slot
 	meta      *hx.Meta
 	seen      map[string]bool // plugin + argument types: goderive wants one name per type tuple
+	composeAr map[string][]int // generated function name -> arity vector, for the translation
 }
 
 // fresh draws types with draw() until the (plugin, key) pair is new; false if 30 draws collide
@@ -268,6 +269,7 @@ func (g *gen) compose(id int, ar []int) {
 	fn := fmt.Sprintf("compose_%d", id)
 	dn := fmt.Sprintf("deriveCompose_%d", id)
 	g.zeroSlots[dn] = slots(sl[n])
+	g.composeAr[dn] = ar
 	var ps []string
 	for i := 0; i < n; i++ {
 		ps = append(ps, fmt.Sprintf("f%d func(%s) %s", i, params("a", sl[i]), results(typs(sl[i+1]), "error")))
@@ -599,7 +601,7 @@ func Run(cfg hx.Config) (*hx.Meta, error) {
 		return nil, err
 	}
 
-	g := &gen{r: hx.NewRand(cfg.Seed), zeroSlots: map[string][]slot{}, meta: meta, seen: map[string]bool{}}
+	g := &gen{r: hx.NewRand(cfg.Seed), zeroSlots: map[string][]slot{}, meta: meta, seen: map[string]bool{}, composeAr: map[string][]int{}}
 	g.order = append([]carrier{}, carriers...)
 	hx.Shuffle(g.r, g.order)
 	g.calls.WriteString("package main\n\n" + typeDecls)
@@ -716,6 +718,7 @@ func Run(cfg hx.Config) (*hx.Meta, error) {
 	}
 	lits := extractZeros(string(genSrc), g.zeroSlots, meta)
 	all := append(zeroObs, lits...)
+	all = append(all, translateCompose(string(genSrc), g.composeAr, meta)...)
 	sort.Strings(all)
 	prev := ""
 	for _, l := range all {
@@ -1113,3 +1116,181 @@ func main() {
 }
 
 `
+
+// translateCompose turns the body of every generated deriveCompose into the statement IR of
+// coq/theories/Chain/ComposeIR.v.  Variables are numbered by their place of definition
+// (parameter j of the returned func = (0, j); value j defined by the k-th call = (k+1, j); the
+// error variable of the k-th call = k), so the names chosen by the generator do not matter.
+// A function whose text is outside the IR (another statement form) is only counted.
+func translateCompose(src string, want map[string][]int, meta *hx.Meta) []string {
+	fset := token.NewFileSet()
+	f, err := parser.ParseFile(fset, "derived.gen.go", src, 0)
+	if err != nil {
+		return nil
+	}
+	var out []string
+	for _, d := range f.Decls {
+		fd, ok := d.(*ast.FuncDecl)
+		if !ok || fd.Body == nil {
+			continue
+		}
+		ar, ok := want[fd.Name.Name]
+		if !ok {
+			continue
+		}
+		ir, ok := translateOne(fd)
+		if !ok {
+			meta.Count("compose-text/outside-the-IR")
+			continue
+		}
+		out = append(out, fmt.Sprintf("(ir %s (%s))", hx.Ints(ar), strings.Join(ir, " ")))
+		meta.Count("compose-text/translated")
+	}
+	return out
+}
+
+func translateOne(fd *ast.FuncDecl) ([]string, bool) {
+	fns := map[string]int{}
+	k := 0
+	for _, fl := range fd.Type.Params.List {
+		for _, nm := range fl.Names {
+			fns[nm.Name] = k
+			k++
+		}
+	}
+	if len(fd.Body.List) != 1 {
+		return nil, false
+	}
+	rs, ok := fd.Body.List[0].(*ast.ReturnStmt)
+	if !ok || len(rs.Results) != 1 {
+		return nil, false
+	}
+	lit, ok := rs.Results[0].(*ast.FuncLit)
+	if !ok {
+		return nil, false
+	}
+	vals := map[string][2]int{}
+	errs := map[string]int{}
+	j := 0
+	if lit.Type.Params != nil {
+		for _, fl := range lit.Type.Params.List {
+			for _, nm := range fl.Names {
+				vals[nm.Name] = [2]int{0, j}
+				j++
+			}
+		}
+	}
+	refs := func(es []ast.Expr) (string, bool) {
+		var l []string
+		for _, e := range es {
+			id, ok := e.(*ast.Ident)
+			if !ok {
+				return "", false
+			}
+			v, ok := vals[id.Name]
+			if !ok {
+				return "", false
+			}
+			l = append(l, fmt.Sprintf("(%d %d)", v[0], v[1]))
+		}
+		return "(" + strings.Join(l, " ") + ")", true
+	}
+	var ir []string
+	calls := 0
+	for _, st := range lit.Body.List {
+		switch s := st.(type) {
+		case *ast.AssignStmt:
+			if s.Tok != token.DEFINE || len(s.Rhs) != 1 || len(s.Lhs) == 0 {
+				return nil, false
+			}
+			ce, ok := s.Rhs[0].(*ast.CallExpr)
+			if !ok {
+				return nil, false
+			}
+			fid, ok := ce.Fun.(*ast.Ident)
+			if !ok {
+				return nil, false
+			}
+			fn, ok := fns[fid.Name]
+			if !ok {
+				return nil, false
+			}
+			args, ok := refs(ce.Args)
+			if !ok {
+				return nil, false
+			}
+			var outs []string
+			for i, e := range s.Lhs {
+				id, ok := e.(*ast.Ident)
+				if !ok {
+					return nil, false
+				}
+				if i == len(s.Lhs)-1 {
+					errs[id.Name] = calls
+				} else {
+					vals[id.Name] = [2]int{calls + 1, i}
+					outs = append(outs, fmt.Sprintf("(%d %d)", calls+1, i))
+				}
+			}
+			ir = append(ir, fmt.Sprintf("(call (%s) %d %d %s)", strings.Join(outs, " "), calls, fn, args))
+			calls++
+		case *ast.IfStmt:
+			be, ok := s.Cond.(*ast.BinaryExpr)
+			if !ok || be.Op != token.NEQ || s.Init != nil || s.Else != nil || len(s.Body.List) != 1 {
+				return nil, false
+			}
+			x, ok1 := be.X.(*ast.Ident)
+			y, ok2 := be.Y.(*ast.Ident)
+			if !ok1 || !ok2 || y.Name != "nil" {
+				return nil, false
+			}
+			ev, ok := errs[x.Name]
+			if !ok {
+				return nil, false
+			}
+			r, ok := s.Body.List[0].(*ast.ReturnStmt)
+			if !ok || len(r.Results) == 0 {
+				return nil, false
+			}
+			last, ok := r.Results[len(r.Results)-1].(*ast.Ident)
+			if !ok || last.Name != x.Name {
+				return nil, false
+			}
+			for _, e := range r.Results[:len(r.Results)-1] {
+				// a zero slot must not mention a variable
+				bad := false
+				ast.Inspect(e, func(n ast.Node) bool {
+					if id, ok := n.(*ast.Ident); ok {
+						if _, isVal := vals[id.Name]; isVal {
+							bad = true
+						}
+						if _, isErr := errs[id.Name]; isErr {
+							bad = true
+						}
+					}
+					return true
+				})
+				if bad {
+					return nil, false
+				}
+			}
+			ir = append(ir, fmt.Sprintf("(iferr %d %d)", ev, len(r.Results)-1))
+		case *ast.ReturnStmt:
+			if len(s.Results) == 0 {
+				return nil, false
+			}
+			last, ok := s.Results[len(s.Results)-1].(*ast.Ident)
+			if !ok || last.Name != "nil" {
+				return nil, false
+			}
+			vs, ok := refs(s.Results[:len(s.Results)-1])
+			if !ok {
+				return nil, false
+			}
+			ir = append(ir, fmt.Sprintf("(ret %s)", vs))
+		default:
+			return nil, false
+		}
+	}
+	return ir, true
+}
